@@ -31,6 +31,10 @@ class KnownHit(Exception):
     """Raised after a violation matching a listed known finding was recorded."""
 
 
+class WallLimit(Exception):
+    """Raised inside an oracle evaluation that exceeded its wall-clock safety net."""
+
+
 class SimCrash(BaseException):
     """Simulated process crash (kill -9) unwinding a library call."""
 
@@ -147,6 +151,9 @@ class Result:
 def execute(world, plan, known_keys=(), keep_events=False):
     """Run one plan. Never raises for library misbehaviour; harness bugs are
     reported in ``harness_error``."""
+    import warnings
+
+    warnings.simplefilter("ignore")  # numpy/sympy warnings from library code are not verdicts; keep the logs readable
     ctx = Ctx(plan["property"], plan, known_keys)
     res = Result()
     res.harness_error = None
@@ -229,14 +236,10 @@ def call(fn, *a, **kw):
     """Invoke library code; returns (ok, value_or_exception)."""
     try:
         return True, fn(*a, **kw)
-    except SimCrash:
+    except (SimCrash, WallLimit):
         raise
     except Exception as e:  # library exceptions are data for the oracle
         return False, e
-
-
-class WallLimit(Exception):
-    """Raised inside an oracle evaluation that exceeded its wall-clock safety net."""
 
 
 class time_limit:
